@@ -42,10 +42,11 @@ func (V *Verifier) runBattery(prop string) *batteryResult {
 	ov := filepath.Join(V.Workdir, "overlay.json")
 	out := filepath.Join(V.Workdir, "battery-"+prop+".json")
 	repo := V.P.RepoDir
-	ovm := map[string]map[string]string{"Replace": {filepath.Join(repo, "zz_bxv_replay_test.go"): "/verif/replay/zz_bxv_replay_test.go"}}
+	ovm := map[string]map[string]string{"Replace": {filepath.Join(repo, "zz_bxv_replay_test.go"): "/verif/replay/zz_bxv_replay_test.go",
+		filepath.Join(repo, "zz_bxv_c11_test.go"): "/verif/replay/zz_bxv_c11_test.go"}}
 	b, _ := json.Marshal(ovm)
 	_ = os.WriteFile(ov, b, 0o644)
-	args := []string{"test", "-overlay", ov, "-vet=off", "-count=1", "-timeout", "180s", "-run", "^TestBxvBattery$"}
+	args := []string{"test", "-tags", "verif", "-overlay", ov, "-vet=off", "-count=1", "-timeout", "300s", "-run", "^TestBxvBattery$"}
 	if prop == "C12" {
 		args = append(args, "-race")
 	}
